@@ -204,6 +204,7 @@ type c04Conn struct {
 	cond *sync.Cond
 
 	closed     bool
+	closeErr   bool // Close closes and reports an error (tls-like)
 	closeCalls int
 	phase      int
 
@@ -217,13 +218,13 @@ type c04Conn struct {
 	// auto mode script
 	script   []c04SrvPkt
 	spos     int
-	cutAt    int  // -1: none; else: EOF once spos == cutAt ...
-	cutIn    bool // ... after delivering the first half of that packet
-	wfaultAt int  // -1: none; else the k-th (0-based) data Write of the query phase fails
-	wfaultN  int  // bytes accepted by the failing Write
-	pong     bool // follow-up phase: answer every read with Pong once the script is exhausted
+	cutAt    int    // -1: none; else: EOF once spos == cutAt ...
+	cutIn    bool   // ... after delivering the first half of that packet
+	wfaultAt int    // -1: none; else the k-th (0-based) data Write of the query phase fails
+	wfaultN  int    // bytes accepted by the failing Write
+	pong     bool   // follow-up phase: answer every read with Pong once the script is exhausted
 	busy     []byte // free runs: once the script is exhausted the server keeps sending this packet, one per millisecond
-	touched  int  // Read+Write+SetDeadline calls in the follow-up phase
+	touched  int    // Read+Write+SetDeadline calls in the follow-up phase
 
 	// outbound
 	writes    []c04Write
@@ -234,9 +235,13 @@ type c04Conn struct {
 	onEvent   func(n int) // called (without locks) at the start of every such call
 }
 
+var c04ConnCount int
+
 func newC04Conn(ctl *c04Ctl) *c04Conn {
 	c := &c04Conn{ctl: ctl, cutAt: -1, wfaultAt: -1}
 	c.cond = sync.NewCond(&c.mu)
+	c04ConnCount++
+	c.closeErr = c04ConnCount%3 == 0
 	return c
 }
 
@@ -431,6 +436,10 @@ func (c *c04Conn) Close() error {
 	}
 	c.closed = true
 	c.cond.Broadcast()
+	if c.closeErr {
+		// what crypto/tls does when close_notify cannot be sent to a peer that is gone: the connection IS closed
+		return errors.New("c04: failed to send closeNotify alert (but connection was closed anyway)")
+	}
 	return nil
 }
 
